@@ -28,12 +28,14 @@ G_LREC = {"<start>": ["<as>"], "<as>": ["<as><b>", "<b>"], "<b>": ["x", "y", "z"
 G_BLOCK = {"<start>": ["<block>"], "<block>": ["(<items>)"], "<items>": ["<item>", "<item><items>"],
            "<item>": ["<block>", "<id>"], "<id>": ["p", "q"]}
 G_EPS = {"<start>": ["<list>"], "<list>": ["", "<item><list>"], "<item>": ["a", "b", "<n>"], "<n>": ["7", "42"]}
-GRAMMARS = {"assgn": G_ASSGN, "num": G_NUM, "lrec": G_LREC, "block": G_BLOCK, "eps": G_EPS}
+G_ROWS = {"<start>": ["<rows>"], "<rows>": ["<row>", "<row>;<rows>"], "<row>": ["<field>", "<field>,<row>"],
+          "<field>": ["a", "b"]}
+GRAMMARS = {"assgn": G_ASSGN, "num": G_NUM, "lrec": G_LREC, "block": G_BLOCK, "eps": G_EPS, "rows": G_ROWS}
 # nonterminals deriving only numerals (str.to.int may be applied to these, as the spec requires)
-NUMERIC = {"assgn": ["<digit>"], "num": ["<num>", "<digit>"], "lrec": [], "block": [], "eps": ["<n>"]}
+NUMERIC = {"assgn": ["<digit>"], "num": ["<num>", "<digit>"], "lrec": [], "block": [], "eps": ["<n>"], "rows": []}
 # alternative start symbols (start_symbol=...)
 ALT_START = {"assgn": ["<stmt>", "<assgn>"], "num": ["<pair>", "<num>"], "lrec": ["<as>"], "block": ["<block>", "<items>"],
-             "eps": ["<list>"]}
+             "eps": ["<list>"], "rows": ["<rows>", "<row>"]}
 # literals per nonterminal (mostly derivable, some not)
 LITS = {
     "assgn": {"<var>": ["a", "b", "c", "d"], "<rhs>": ["a", "1", "c", "2"], "<digit>": ["0", "1", "2", "7"],
@@ -43,6 +45,7 @@ LITS = {
     "block": {"<id>": ["p", "q", "r"], "<item>": ["p", "(q)", "q"], "<items>": ["p", "pq", "q(p)"],
               "<block>": ["(p)", "(pq)", "((q))"]},
     "eps": {"<item>": ["a", "b", "7", "42"], "<n>": ["7", "42", "8"], "<list>": ["", "a", "ab", "a7"]},
+    "rows": {"<field>": ["a", "b", "c"], "<row>": ["a", "a,b", "b,b,a"], "<rows>": ["a", "a;b", "a,b;b"]},
 }
 MEXPRS = {
     "assgn": [("<assgn>", [("bind", "l", "<var>"), "=", ("bind", "r", "<rhs>")]),
@@ -60,6 +63,8 @@ MEXPRS = {
               ("<item>", [("bind", "b", "<block>")])],
     "eps": [("<list>", [("bind", "h", "<item>"), ("bind", "r", "<list>")]),
             ("<item>", [("bind", "k", "<n>")])],
+    "rows": [("<row>", [("bind", "f", "<field>"), ",", ("bind", "r", "<row>")]),
+             ("<rows>", [("bind", "h", "<row>"), ";", ("bind", "t", "<rows>")])],
 }
 PRED2 = ["before", "after", "inside", "same_position", "different_position", "direct_child", "consecutive"]
 OPS = ["EQ", "GE", "LE", "GT", "LT"]
@@ -125,6 +130,8 @@ def gen_atom(rng, gname, g, scope, root_type):
         return ("sp", "level", [("str", rng.choice(OPS)), ("str", rng.choice(nts)), ("var", v), ("var", w)])
     if r < 0.97:
         below = sorted(reach(g, v[1])) or nts
+        if rng.random() < 0.4:      # negated count (the solver must AVOID the number), targets 1-4
+            return ("not", ("count", v, rng.choice(below), str(rng.randint(1, 4))))
         return ("count", v, rng.choice(below), str(rng.randint(0, 3)))
     return ("streq", False, ("var", v), ("lit", rng.choice(lits)))
 
@@ -407,6 +414,8 @@ def solve_instance(job):
             kw = dict(max_number_free_instantiations=st["free"], max_number_smt_instantiations=st["smt"],
                       enable_optimized_z3_queries=st["opt"], enforce_unique_trees_in_queue=st["unique"],
                       tree_insertion_methods=st["methods"], timeout_seconds=60)
+            if st.get("unsat"):
+                kw["activate_unsat_support"] = True
             if st["start_symbol"] is not None:
                 kw["start_symbol"] = st["start_symbol"]
             solver = ISLaSolver(g, formula, **kw)
@@ -496,6 +505,34 @@ def run_jobs(jobs, nproc):
 # --------------------------------------------------------------------------
 # instance generation
 # --------------------------------------------------------------------------
+def gen_exists_and(rng, gname, g, root_type, counter):
+    S = ("start", root_type)
+    below = sorted(reach(g, root_type))
+    with_lits = [t for t in below if LITS[gname].get(t)]
+
+    def simple(kind):
+        counter[0] += 1
+        ty = rng.choice(with_lits or below)
+        v = ("v" + str(counter[0]), ty)
+        lits = (LITS[gname].get(ty) or ["x"])[:3]       # the first literals are derivable
+        if rng.random() < 0.7:
+            body = ("streq", False, ("var", v), ("lit", rng.choice(lits)))
+        else:
+            body = ("len", rng.choice(CMPS), ("var", v), rng.randint(1, 3))
+        return (kind, v, S, None, body)
+
+    parts = [simple("exists")]
+    r = rng.random()
+    if r < 0.7:
+        parts.append(simple("forall"))
+    elif r < 0.85:
+        parts.append(("len", rng.choice(CMPS), ("var", S), rng.randint(1, 6)))
+    else:
+        parts += [simple("forall"), simple("exists")]
+    rng.shuffle(parts)
+    return ("and", parts)
+
+
 def gen_instance(rng, idx, budget, max_solutions):
     gname = rng.choice(list(GRAMMARS))
     g = GRAMMARS[gname]
@@ -506,9 +543,20 @@ def gen_instance(rng, idx, budget, max_solutions):
     ast = gen_formula(rng, gname, geff, [("start", root_type)], rng.randint(1, 2), counter, root_type)
     if rng.random() < 0.15:
         ast = ("and", [ast, gen_formula(rng, gname, geff, [("start", root_type)], 1, counter, root_type)])
+    conj_template = rng.random() < 0.2
+    if conj_template:
+        # conjunction of a tree-existential with a universal / SMT conjunct over derivable literals
+        # (the shape for which the nested unsat check of activate_unsat_support solves a sub-problem)
+        ast = gen_exists_and(rng, gname, geff, root_type, counter)
     settings = {"free": rng.choice([1, 2, 5, 10]), "smt": rng.choice([1, 2, 5, 10]),
                 "opt": rng.random() < 0.5, "unique": rng.random() < 0.5,
-                "methods": rng.choice([0, 1, 2, 3, 4, 5, 6, 7, 7, 7]), "start_symbol": start_symbol}
+                "methods": rng.choice([0, 1, 2, 3, 4, 5, 6, 7, 7, 7]), "start_symbol": start_symbol,
+                "unsat": False}
+    if rng.random() < (0.7 if conj_template else 0.25):
+        # activate_unsat_support: tree_insertion_methods None (-> 0, the documented pairing) in 70 %,
+        # instantiation limits 2-3 so that several solutions are pending at a time
+        settings.update({"unsat": True, "free": rng.choice([2, 3]), "smt": rng.choice([2, 3]),
+                         "methods": None if rng.random() < 0.7 else settings["methods"]})
     how = "concrete" if rng.random() < 0.4 else "direct"
     return {"idx": idx, "gname": gname, "ast": ast, "how": how, "settings": settings,
             "seed": rng.randrange(2 ** 31), "budget": budget, "max_solutions": max_solutions}
@@ -560,6 +608,44 @@ def probe_instances(budget, max_solutions):
                         "settings": {"free": free, "smt": 5, "opt": True, "unique": True, "methods": methods,
                                      "start_symbol": None},
                         "seed": 1000 + j, "budget": budget, "max_solutions": max_solutions})
+    # activate_unsat_support: the nested solve() of process_new_state works on the existential
+    # conjunct alone; its solutions must not leak into the outer solution stream
+    dg, vr, nm = ("x1", "<digit>"), ("x2", "<var>"), ("x2", "<num>")
+    unsat_probes = [
+        ("assgn", ("and", [("exists", dg, S, None, ("streq", False, ("var", dg), ("lit", "1"))),
+                           ("forall", vr, S, None, ("streq", False, ("var", vr), ("lit", "a")))])),
+        ("assgn", ("and", [("forall", vr, S, None, ("streq", False, ("var", vr), ("lit", "b"))),
+                           ("exists", dg, S, None, ("streq", False, ("var", dg), ("lit", "2")))])),
+        ("num", ("and", [("exists", dg, S, None, ("streq", False, ("var", dg), ("lit", "7"))),
+                         ("forall", nm, S, None, ("len", ("CLe", "<="), ("var", nm), 2))])),
+    ]
+    for j, (gname, ast) in enumerate(unsat_probes):
+        for lim, methods in ((2, None), (3, None), (3, 7)):
+            out.append({"idx": f"u{j}.{lim}.{methods}", "gname": gname, "ast": ast, "how": "concrete" if j % 2 else "direct",
+                        "settings": {"free": lim, "smt": lim, "opt": True, "unique": True, "methods": methods,
+                                     "start_symbol": None, "unsat": True},
+                        "seed": 2000 + j, "budget": budget * 2, "max_solutions": max(max_solutions, 15)})
+    # negated count under a universal quantifier on list-like recursive structures: the solver has to
+    # AVOID the number (count(..., negate=True) picks another target); >= 10 solutions wanted
+    rw, rs, ls, bk = ("x1", "<row>"), ("x1", "<rows>"), ("x1", "<list>"), ("x1", "<block>")
+    neg_probes = []
+    for k in ("2", "3", "4"):
+        neg_probes.append(("rows", ("forall", rw, S, None, ("not", ("count", rw, "<field>", k)))))
+    neg_probes.append(("rows", ("forall", rs, S, None, ("not", ("count", rs, "<row>", "3")))))
+    neg_probes.append(("rows", ("forall", rs, S, None, ("not", ("count", rs, "<row>", "1")))))
+    neg_probes.append(("eps", ("forall", ls, S, None, ("not", ("count", ls, "<item>", "3")))))
+    neg_probes.append(("block", ("forall", bk, S, None, ("not", ("count", bk, "<id>", "2")))))
+    neg_probes.append(("block", ("forall", bk, S, None, ("not", ("count", bk, "<id>", "3")))))
+    neg_probes.append(("rows", ("forall", rs, S, None, ("not", ("count", rs, "<row>", "2")))))
+    neg_probes.append(("rows", ("forall", rs, S, None, ("not", ("count", rs, "<row>", "4")))))
+    az = ("x1", "<as>")
+    neg_probes.append(("lrec", ("forall", az, S, None, ("not", ("count", az, "<b>", "3")))))
+    for j, (gname, ast) in enumerate(neg_probes):
+        for free in (5, 10):
+            out.append({"idx": f"n{j}.{free}", "gname": gname, "ast": ast, "how": "concrete" if j % 2 else "direct",
+                        "settings": {"free": free, "smt": free, "opt": True, "unique": True, "methods": 7,
+                                     "start_symbol": None, "unsat": False},
+                        "seed": 3000 + j, "budget": budget * 3, "max_solutions": 30})
     return out
 
 
@@ -616,6 +702,23 @@ def isla_evaluate_true(job, tree):
         return False
 
 
+def count_exists_pos(f, pol=True, inex=False):
+    """Python mirror of Rules.K_count: some count atom occurs with POSITIVE polarity in the scope of an
+    existential quantifier (exists with positive / forall with negative polarity) — the recorded defect.
+    Negated count atoms and count atoms under universal quantifiers only are NOT in the class."""
+    k = f[0]
+    if k == "count":
+        return pol and inex
+    if k == "not":
+        return count_exists_pos(f[1], not pol, inex)
+    if k in ("and", "or"):
+        return any(count_exists_pos(x, pol, inex) for x in f[1])
+    if k in ("forall", "exists"):
+        ex = pol if k == "exists" else not pol
+        return count_exists_pos(f[4], pol, inex or ex)
+    return False
+
+
 def class_of(job, tree, code, spec_fails, known_by_class):
     """class of an open known finding that explains this failing tree, or None.
     code = sol_check bit mask; spec_fails = spec_sem.py also says the constraint is violated."""
@@ -623,7 +726,7 @@ def class_of(job, tree, code, spec_fails, known_by_class):
     if code == 16 and spec_fails:
         if "sp:nth" in kinds and "K_nth" in known_by_class:
             return "K_nth"
-        if "count" in kinds and "K_count" in known_by_class:
+        if count_exists_pos(job["ast"]) and "K_count" in known_by_class:
             return "K_count"
         # consecutive(): ISLa's predicate itself is wrong when the common prefix of the two nodes is
         # not the root (C04 finding consecutive-relative-paths, open).  Two manifestations, both seen:
@@ -770,7 +873,7 @@ def run(run):
     nproc = max(2, min(lib.NPROC, (os.cpu_count() or 4)) - 2)
     run.cov["rule"] = (
         "solver instances = (grammar in {assignment language, numeral pairs, left-recursive list, nested blocks, "
-        "epsilon list}, constraint generated AST-first: 1-2 tree quantifiers (forall/exists, in start or an outer "
+        "epsilon list, rows of fields}, constraint generated AST-first: 1-2 tree quantifiers (forall/exists, in start or an outer "
         "variable, 30% with a match expression incl. optional parts) over reachable nonterminals, conjunction/"
         "disjunction/negation of quantified formulas, bodies = not/and/or (n-ary) over string (in)equality var/"
         "literal and var/var, str.len and str.to.int comparisons (str.to.int only on numeral-deriving "
@@ -778,7 +881,11 @@ def run(run):
         "{1,2,5,10}, max_number_smt_instantiations in {1,2,5,10}, enable_optimized_z3_queries on/off, "
         "enforce_unique_trees_in_queue on/off, tree_insertion_methods in 0..7, start_symbol in 20%; formula "
         "passed as object (direct construction) or as concrete syntax (own printer)); plus fixed probe "
-        "instances for early instantiation of nth/consecutive/level/count. Each instance: random.seed(seed), "
+        "instances for early instantiation of nth/consecutive/level/count, universals over simultaneously "
+        "created nodes, activate_unsat_support=True on conjunctions of a tree-existential with a universal/SMT "
+        "conjunct (limits 2-3; also 25% of the generated instances, 70% of the generated exists-and-forall "
+        "conjunctions), negated count under universal quantifiers on list-like grammars (targets 1-4, up to "
+        "30 solutions, 6 s). Each instance: random.seed(seed), "
         "solve() called until 10 solutions / StopIteration / 2 s user-CPU. EVERY returned tree is checked in "
         "Coq (sol_check: shape_ok, wf_treeb, closedb, root label, satb of the original constraint) and by "
         "spec_sem.py; every prefix of the solution sequence is thereby checked. non-trivial = the instance "
@@ -809,7 +916,7 @@ def run(run):
     run.cov["solver_wall_seconds"] = round(time.time() - t0, 1)
 
     hist_end, hist_kind, hist_set = {}, {}, {"methods": {}, "free": {}, "smt": {}, "opt": {}, "unique": {},
-                                             "start_symbol": {}, "how": {}, "grammar": {}}
+                                             "start_symbol": {}, "how": {}, "grammar": {}, "unsat_support": {}}
     n_sol = 0
     for job, res in zip(jobs, results):
         e = res["end"].split(":")[0]
@@ -824,6 +931,7 @@ def run(run):
             st = job["settings"]
             for key in ("methods", "free", "smt", "opt", "unique"):
                 hist_set[key][str(st[key])] = hist_set[key].get(str(st[key]), 0) + 1
+            hist_set["unsat_support"][str(bool(st.get("unsat")))] = hist_set["unsat_support"].get(str(bool(st.get("unsat"))), 0) + 1
             hist_set["start_symbol"][str(st["start_symbol"])] = hist_set["start_symbol"].get(str(st["start_symbol"]), 0) + 1
             hist_set["how"][job["how"]] = hist_set["how"].get(job["how"], 0) + 1
             hist_set["grammar"][job["gname"]] = hist_set["grammar"].get(job["gname"], 0) + 1
